@@ -209,6 +209,9 @@ Ltac zground1 :=
   end.
 Ltac zground := repeat zground1.
 
+Lemma in_range_I64 z : -9223372036854775808 <= z <= 9223372036854775807 -> in_range I64 z = true.
+Proof. intro H. unfold in_range, ity_range. apply andb_true_intro; split; apply Z.leb_le; lia. Qed.
+
 Lemma in_range_I32 z : -2147483648 <= z <= 2147483647 -> in_range I32 z = true.
 Proof. intro H. unfold in_range, ity_range. apply andb_true_intro; split; apply Z.leb_le; lia. Qed.
 
@@ -238,7 +241,7 @@ Ltac callstep prg :=
       lazymatch o with
       | None =>
           let b := eval cbv [builtin external pop_stream bindr fst snd alookup aset String.eqb Ascii.eqb Bool.eqb
-                             heap globs streams wtrace set_heap Nat.eqb
+                             heap globs streams wtrace set_heap Nat.eqb ranges_overlap
                              alloc] in (builtin f args w) in
           change (mk_call p r f args w) with b
       end
